@@ -234,8 +234,16 @@ func TestC16Storm(t *testing.T) {
 // while) while another goroutine replaces the definitions without pause, with and without a start delay. The job runs
 // with the definition of one instant: either it has no delay and starts at once, or it has its delay and its timer -
 // in both cases it completes soon after. No other request follows that could rescue a job left on the wait list.
-func TestC16Race(t *testing.T) {
-	col := ev.Get("C16", "race", "a pipeline with 150-400 independent tasks (builtin-speed stand-in runner); per round one schedule request is made while a second goroutine replaces the definitions continuously, alternating between no start delay and 3 ms; then the reloads stop and the job must complete within 5 s (nothing else is scheduled that could start a job left waiting); 10-25 rounds per case, built with -race; oracle: every job completes; a job accepted with a start delay does not start earlier than created + delay; non-trivial = the reloads were under way when the request was made; distinct by (tasks, rounds)")
+func TestC16Race(t *testing.T) { raceReload(t, "C16") }
+
+// TestC13Race: the same histories decide the last clause of C13 for the pair (schedule, reload): a request served
+// while the definitions are replaced must see one definition and leave a state that fits it - a job that is neither
+// started nor has a timer fits none. (A runner that publishes the definitions atomically but reads them twice
+// inside one operation is silent under the race detector.)
+func TestC13Race(t *testing.T) { raceReload(t, "C13") }
+
+func raceReload(t *testing.T, prop string) {
+	col := ev.Get(prop, "race", "a pipeline with 150-400 independent tasks (builtin-speed stand-in runner); per round one schedule request is made while a second goroutine replaces the definitions continuously, alternating between no start delay and 3 ms; then the reloads stop and the job must complete within 5 s (nothing else is scheduled that could start a job left waiting); 10-25 rounds per case, built with -race; oracle: every job completes; a job accepted with a start delay does not start earlier than created + delay; non-trivial = the reloads were under way when the request was made; distinct by (tasks, rounds)")
 	atomic.StoreInt64(&taskctl.VerifPause, int64(50*time.Microsecond))
 	defer atomic.StoreInt64(&taskctl.VerifPause, 0)
 	rapid.Check(t, func(rt *rapid.T) {
@@ -291,7 +299,7 @@ func TestC16Race(t *testing.T) {
 			close(stop)
 			rd.Wait()
 			if err != nil {
-				rt.Fatalf("[C16] round %d: schedule request refused: %v", round, err)
+				rt.Fatalf("["+prop+"] round %d: schedule request refused: %v", round, err)
 			}
 			if before > 0 {
 				overlapping++ // the reloader was at work when the request was made
@@ -309,13 +317,13 @@ func TestC16Race(t *testing.T) {
 					}
 				})
 				if started && delay > 0 && startedAt.Sub(created) < delay {
-					rt.Fatalf("[C16] round %d: a job accepted with a start delay of %s started %s after it was created", round, delay, startedAt.Sub(created))
+					rt.Fatalf("["+prop+"] round %d: a job accepted with a start delay of %s started %s after it was created", round, delay, startedAt.Sub(created))
 				}
 				if completed {
 					break
 				}
 				if time.Now().After(deadline) {
-					rt.Fatalf("[C16] round %d: 5 s after the last reload the job accepted during the reloads (start delay %s, started=%v) has not completed; %d reloads fell into its schedule call", round, delay, started, during)
+					rt.Fatalf("["+prop+"] round %d: 5 s after the last reload the job accepted during the reloads (start delay %s, started=%v) has not completed; %d reloads fell into its schedule call", round, delay, started, during)
 				}
 				time.Sleep(100 * time.Microsecond)
 			}
